@@ -331,6 +331,9 @@ func gen(rng *rand.Rand, tier string) []string {
 		maxOps = 16 + rng.Intn(14)
 	}
 	perWorker := 12
+	if maxOps > nw*perWorker-2 {
+		maxOps = nw*perWorker - 2
+	}
 	var out []string
 	if rng.Intn(3) != 0 {
 		out = append(out, "hold")
@@ -341,7 +344,7 @@ func gen(rng *rand.Rand, tier string) []string {
 	var openLater []int
 	pPush := 35 + rng.Intn(40) // percentage of pushes
 	burst := rng.Intn(3) == 0  // hand everything over at once
-	for n := 0; n < maxOps; {
+	for n := 0; n < maxOps && len(out) < 120; {
 		r := rng.Intn(100)
 		switch {
 		case r < 70:
